@@ -361,8 +361,19 @@ def compositional(conv, w: World, o, t, r, strat, path="$"):
 
 # ------------------------------------------------------------------------------------ the session
 
+def _has_nonstr_key(o, depth=0) -> bool:
+    if depth > 20:
+        return False
+    if isinstance(o, dict):
+        return any(not isinstance(k, str) for k in o) or any(_has_nonstr_key(x, depth + 1) for x in o.values())
+    if isinstance(o, (list, tuple, set, frozenset)):
+        return any(_has_nonstr_key(x, depth + 1) for x in o)
+    return False
+
+
 class Session:
     def __init__(self, v: Verdict, name: str, flags: dict):
+        self.world_classes = {}
         self.v = v
         self.name = name
         self.flags = flags
@@ -380,7 +391,12 @@ class Session:
             if kind == "S":
                 prims = L.prims_of(w, t, set(), set())
                 tables.add_payload(obj, prims, L.has_class(w, t))
-            text = f"ccase_ok true ENV (C{kind} {L.ccfg(full, dv, strat, forbid, self.flags)} {w.cty(t)} {w.cval(obj)} {L.cout(w, res)})"
+            # the CLASS of the exception is compared too -- except where the model's rule for it is knowingly approximate: with
+            # forbid_extra_keys a payload dict with a non-str key makes the constructor of ForbiddenExtraKeysError itself raise
+            # TypeError; the model applies that to every Forbidden error passing through such a level, the implementation only where
+            # the level's OWN check fires (an error of a nested class propagates unchanged in fast mode): acceptance only there
+            strict = not (kind == "S" and forbid and _has_nonstr_key(obj))
+            text = f"ccase_ok {'true' if strict else 'false'} ENV (C{kind} {L.ccfg(full, dv, strat, forbid, self.flags)} {w.cty(t)} {w.cval(obj)} {L.cout(w, res)})"
         except Unencodable:
             self.hist["unencodable"] += 1
             return
@@ -393,6 +409,9 @@ class Session:
                 "observed": (repr(res[1])[:300] if res[0] == "ok" else f"raises {type(res[2]).__name__}: {str(res[2])[:120]}")}
         if extra:
             desc.update(extra)
+        desc["world"] = self.hist["worlds"]
+        if self.hist["worlds"] not in self.world_classes:
+            self.world_classes[self.hist["worlds"]] = [describe_class(w, s) for s in w.specs]
         self.meta.append(desc)
         self.v.count(repr((self.hist["worlds"], desc["op"], desc["converter"], dv, strat, forbid, desc["type"], desc["input"])),
                      L.type_depth(t) >= 1 or L.has_class(w, t))
@@ -417,7 +436,7 @@ class Session:
                 m = re.search(r"Definition cs_%d : list bool := \[\n(.*)\n\]\.\n" % i, txt, flags=re.S)
                 case = m.group(1).split(";\n  ")[idx - base]
                 fn = "cerr_model" if " (CE " in case else "ccase_model"
-                case = re.sub(r"^ccase_ok true (env_\d+) ", fn + r" \1 ", case.strip())
+                case = re.sub(r"^ccase_ok (?:true|false) (env_\d+) ", fn + r" \1 ", case.strip())
                 src += f"Eval vm_compute in ({case}).\n"
                 rc, out = run_cases_file(f"{self.name}_explain", src, timeout=300)
                 vals = parse_coq_value(out)
@@ -589,7 +608,8 @@ def conv_session(v: Verdict, name: str, flags: dict, n_worlds: int, profile: dic
     bad = S.run_model()
     if bad is not None:
         v.obligation(f"correspondence:CONV/{name} (model structure/unstructure = implementation on every generated case)", not bad,
-                     "" if not bad else f"{len(bad)} of {len(S.meta)} disagree, first: {S.meta[bad[0]]}")
+                     "" if not bad else f"{len(bad)} of {len(S.meta)} disagree, first: {S.meta[bad[0]]}; classes of that world: {S.world_classes.get(S.meta[bad[0]].get('world'))}; "
+                                        f"the model computes: {S.explain(bad[0])}")
         S.bad = [dict(S.meta[i], model=S.explain(i)) for i in bad[:12]]
     v.coverage["input_distribution"] = S.hist
     if len(v.samples) < 5:
